@@ -114,6 +114,7 @@ def selftest : Bool :=
 def handle (w : World) (line : String) : World × String :=
   match words line with
   | ["init"] => (genesis, s!"ok | {showWorld genesis}")
+  | ["show"] => (w, s!"ok - - | {showWorld w}")
   | ["selftest"] => (w, if selftest then "ok" else "FAILED")
   | ["keccak", h] =>
     match parseHex? h with
